@@ -308,12 +308,12 @@ PROPERTIES = {
             "assumptions": ["empty project or ID segments are not flagged by the 'only if' rule; only shape, echo acceptance, same-resource, fixed-point and distinctness are"]},
     "C07": {"level": "exploration", "jobs": c07_jobs, "engine": "dvsim",
             "technique": "runtime monitoring: termination-at-quiescence oracle on a paused virtual clock over seeded burst workloads that saturate actor mailboxes",
-            "level_text": "Burst episodes larger than the 16-slot actor mailboxes (17-60 simultaneous calls mixed with Publish / DeleteSubscription / DeleteTopic / CreateSubscription and stream control messages) run against the real services; on the paused clock one virtual hour passes only when no task can run, so any call still pending then can never complete. Hook counters prove that mailboxes were actually full. The burst may contain a DeleteSubscription abandoned by its client, and a delete probe afterwards must be answered. Lock nesting (manager -> registry) is exercised on a 6-worker runtime with the real clock: the push loop ticks every 1-3 ms over 300-1200 push subscriptions while clients create / look up / delete push subscriptions; a monitor thread outside the runtime counts completed calls, and 15 s without a single completion while calls are outstanding is a violation (blocked threads complete nothing; a slow machine completes little, not nothing). Exploration: the quantifier is over schedules, which are sampled (seeded yields at every mailbox site).",
+            "level_text": "Burst episodes larger than the 16-slot actor mailboxes (17-60 simultaneous calls mixed with Publish / DeleteSubscription / DeleteTopic / CreateSubscription and stream control messages) run against the real services; on the paused clock one virtual hour passes only when no task can run, so any call still pending then can never complete. Hook counters prove that mailboxes were actually full. The burst may contain a DeleteSubscription abandoned by its client, and a delete probe afterwards must be answered. Lock nesting (manager -> registry) is exercised on a 6-worker runtime with the real clock: the push loop ticks every 1-3 ms over 300-1200 push subscriptions while clients create / look up / delete push subscriptions; a monitor thread outside the runtime counts completed calls, and 15 s without a single completion while calls are outstanding is a violation (blocked threads complete nothing; a slow machine completes little, not nothing). Exploration: the quantifier is over schedules, which are sampled (seeded yields at every mailbox site). Two jobs run on real worker threads with the real clock: control-plane calls against a push loop ticking every 1-3 ms (lock nesting; verdict by completed calls, the monitor stops the push loop before it decides), and the deletion instant (requests issued together with the DeleteSubscription of their subscription; verdict by the server's activity counter standing still).",
             "level_note": SIM_NOTE,
             "assumptions": ["'bounded amount of server work' is decided as: returned by the time the paused clock has auto-advanced one hour (5 min + 1 s for blocking pulls)"]},
     "C12": {"level": "exploration", "jobs": c12_jobs, "engine": "dvsim",
             "technique": "runtime monitoring: quiescence oracle over recorded client-boundary histories of seeded virtual-time episodes",
-            "level_text": "Thousands of seeded episodes of the real gRPC stack on a paused clock: open streams (request side open/closed), blocked pulls and 0-10 (a third of the episodes: 17-70) in-flight calls are raced against DeleteSubscription under seeded select!/yield schedules on two transports; one virtual second after the delete returned the monitor requires every stream to have ended NOT_FOUND and every blocked pull to have returned an error. Exploration is the right level because the quantifier is over schedules, which can only be sampled.",
+            "level_text": "Thousands of seeded episodes of the real gRPC stack on a paused clock: open streams (request side open/closed), blocked pulls and 0-10 (a third of the episodes: 17-70) in-flight calls are raced against DeleteSubscription under seeded select!/yield schedules on two transports; one virtual second after the delete returned the monitor requires every stream to have ended NOT_FOUND and every blocked pull to have returned an error. Exploration is the right level because the quantifier is over schedules, which can only be sampled. A second job runs the deletion instant on real worker threads (6-worker runtime, real clock; 7 200 / 28 800 rounds of parked Pulls, an open stream and 2-6 other requests issued together with the DeleteSubscription): there a call is reported only if it is still outstanding after the server's activity counter has stood still for 5 s.",
             "level_note": SIM_NOTE,
             "assumptions": ["'as soon as the deletion has been processed' is decided one virtual second after DeleteSubscription returned OK, at a quiescent point"]},
 }
@@ -328,6 +328,8 @@ ENGINES = [
      "kind_free_text": "small SEQ episodes interpreted by Miri: UB checks on the unsafe sites (take_expired's unwrap_unchecked, pin projections), aliasing, leaks, while the reference-model oracle runs"},
     {"name": "flowcheck", "path": "/verif/harness (bin flowcheck)", "serves_properties": ["C19"],
      "kind_free_text": "native std::thread stress with a trace oracle; the same binary under `cargo +nightly miri run` with -Zmiri-many-seeds"},
+    {"name": "dvsim-mt", "path": "/verif/harness (bin dvsim --engine mt, stable build)", "serves_properties": ["C07", "C10", "C11", "C12", "C14"],
+     "kind_free_text": "the same binary on a multi-thread runtime with the real clock, for what a single thread cannot interleave: lock nesting against a ticking push loop (c07p), check-then-act on the name maps (c10 racers), requests in the instant a subscription goes away (c12m). Verdicts by work done (completed calls, activity counter), never by elapsed time alone; wall-clock limits only produce 'inconclusive'"},
     {"name": "dvsim", "path": "/verif/harness (bin dvsim)", "serves_properties": sorted(PROPERTIES.keys()),
      "kind_free_text": "deterministic virtual-time simulator: real tonic services + generated clients in-process, paused tokio clock, seeded scheduler, client-boundary recorder, offline checkers"},
 ]
